@@ -13,6 +13,7 @@
 -/
 import Lomond.Model.Core
 import Lomond.Generated.Facts
+import Lomond.Proofs.Reconnect
 
 namespace Lomond.C17
 open Lomond Lomond.Core
@@ -85,6 +86,48 @@ theorem model_fields_are_instance_state :
     (∀ a ∈ ["_sock", "_poll_start", "_next_ping", "_last_pong", "_start_time", "_ready", "_buffer", "_lock"],
         ("__init__", a) ∈ Gen.sessionWrites) ∧
     Gen.classLevelObjects = [] := by
+  decide
+
+/-! ### abandoned generators that are finalised late (finding D10) -/
+
+open Lomond.Reconnect (codeVia)
+
+/-- the source really contains the handler this is about (the fact list is not vacuous) -/
+theorem feed_exit_handler_present : ("feed", "on_disconnect", "captured") ∈ Gen.exitStateReads := by decide
+
+theorem code_via_captured : codeVia = .captured := by decide
+
+open Lomond.Reconnect in
+/-- **Late finalisation cannot reach the current connection.**  Take any earlier life of the object `o`, a
+    `connect()`, and then any history in which the new connection acts on its own state while generators of
+    OLDER connections are finalised at arbitrary moments (`Op.exit i`, `i` older than the current connection): the
+    current connection's state is exactly what a freshly constructed object would have after the connection's own
+    actions alone.  Stated for the way the current source finds the state (`codeVia`). -/
+theorem late_finalisation_isolated (o : Obj) (ops : List Op) (h : OldExits (o.states.length + 1) ops) :
+    ((o.connect).run codeVia ops).view = some (freshView ops) := by
+  rw [code_via_captured]
+  have hl : o.connect.states.length = o.states.length + 1 := by simp [Obj.connect]
+  have := run_view o.connect ops {} (view_connect o) (by rw [hl]; exact h)
+  exact this.2
+
+open Lomond.Reconnect in
+/-- the hypotheses are satisfiable by a non-trivial history: two earlier connections, both finalised during the third -/
+example : OldExits 3 [.exit 0, .own .close, .exit 1] ∧
+    (((({} : Obj).connect.connect).connect).run .captured [.exit 0, .own .close, .exit 1]).view
+      = some { closed := false, closing := true, sessionClosed := false } := by
+  refine ⟨?_, by decide⟩
+  intro op hm
+  simp at hm
+  rcases hm with rfl | rfl | rfl <;> simp
+
+open Lomond.Reconnect in
+/-- **The code before the repair (D10).**  Going through `self.state` at finalisation time, the exit of the first
+    connection's generator after the second `connect()` marks the SECOND connection closed and closes its session
+    (the real code then reports ConnectFail "request failed; data not sent"). -/
+theorem late_finalisation_poisons_current :
+    ((({} : Obj).connect.connect).run .current [.exit 0]).view
+      = some { closed := true, closing := false, sessionClosed := true } ∧
+    ((({} : Obj).connect.connect).run .captured [.exit 0]).view = some {} := by
   decide
 
 end Lomond.C17
